@@ -294,6 +294,41 @@ func genC13(g *G) {
 			}
 		}
 	}
+	// needles made only of members of the k and s orbits (members of 1, 2 and 3 bytes), against every
+	// re-spelling of themselves with other members: windows of the same runes and different byte widths
+	{
+		orbK, orbS := []string{"k", "K", "\u212a"}, []string{"s", "S", "\u017f"}
+		var needles [][][]string // each needle: list of orbits
+		for _, a := range [][]string{orbK, orbS} {
+			for _, b := range [][]string{orbK, orbS} {
+				needles = append(needles, [][]string{a, b})
+				for _, c := range [][]string{orbK, orbS} {
+					needles = append(needles, [][]string{a, b, c})
+				}
+			}
+		}
+		var spell func(orbs [][]string, cur string, f func(string))
+		spell = func(orbs [][]string, cur string, f func(string)) {
+			if len(orbs) == 0 {
+				f(cur)
+				return
+			}
+			for _, m := range orbs[0] {
+				spell(orbs[1:], cur+m, f)
+			}
+		}
+		for _, orbs := range needles {
+			spell(orbs, "", func(sub string) {
+				spell(orbs, "", func(win string) {
+					if g.Quick() && g.Rnd.IntN(3) != 0 {
+						return
+					}
+					emit("x"+win, sub)
+					emit("-"+win+"-", sub)
+				})
+			})
+		}
+	}
 	// ASCII: all pairs over {a, A, k, K, s, 1} with |s| <= 4, |sub| <= 2 (quick: sampled)
 	asc := []string{"a", "A", "k", "K", "s", "1"}
 	for _, s := range words(4, asc) {
@@ -347,6 +382,13 @@ func genC13(g *G) {
 	}
 	for _, p := range [][2]string{{"", ","}, {" ", ","}, {",", ","}, {" , ,\t, ", ","}, {"||  ||", "||"}, {"a", ""}, {"abc", ""}, {" a b ", ""}} {
 		emitST(g, p[0], p[1])
+	}
+	// separators that begin or end with white space and also have another character: an occurrence can
+	// start inside the blanks around a piece
+	for _, sep := range []string{" ,", "\n-", ", ", "\t|", " , ", "- "} {
+		for _, str := range []string{"a" + sep + sep + "b", "a" + sep + " " + sep + "b", "a" + sep + "  " + sep + " b", sep + sep, " " + sep + " " + sep + " ", "a " + sep + "b " + sep, "a" + sep + "b", "a , ,b", "a\n-\n-b", "a ,  ,b ,c"} {
+			emitST(g, str, sep)
+		}
 	}
 	// separators that overlap themselves, with runs of their characters of every length and alignment
 	for _, sep := range []string{"--", "::", "aba", "aa", "||", ".."} {
